@@ -50,6 +50,16 @@ def run(rep, idx, tier):
             member_table(rep, idx, idx.find_class(spec), table, rule="C12.7")
         except Exception as e:
             rep.unk("C12.7", "-", f"{spec}: member table", f"cannot decide: {type(e).__name__}: {e}")
+    # the action constructors validate nothing themselves (FieldPort.Signature validates shape and access, Signal the initial value):
+    # every (shape, init) those accept gives a field; a refusal of their own shrinks the domain the property is stated over
+    rep.require("C12.8", 5)
+    from .common import closed_refusals, get_fn
+    for cname in ("R", "W", "RW", "RW1C", "RW1S"):
+        try:
+            closed_refusals(rep, "C12.8", get_fn(idx, f"csr/action:{cname}.__init__"),
+                            f"{cname}.__init__ adds no refusal of its own (every shape / init the port signature and Signal accept is accepted)")
+        except Exception as e:
+            rep.unk("C12.8", "-", f"{cname}.__init__: closed refusal set", f"cannot decide: {type(e).__name__}: {e}")
     from . import glue
     glue.reset_discipline(rep, "C12.5", idx, ["csr/action:RW", "csr/action:RW1C", "csr/action:RW1S"],
                           allowed_init=[(("RW", "_storage"), "init"), (("RW1C", "_storage"), "init"), (("RW1S", "_storage"), "init")])
